@@ -37,12 +37,21 @@ func verifIsRendering(s string, v uint64, d int, tag string) {
 //verif:harness prop=C01 name=derive
 //verif:cases quick digits=1,6,8,9,10 alg=0..2 keylen=20
 //verif:cases thorough digits=1..10 alg=0..2 keylen=0,1,20,65
-func verifH_C01_derive() {
+func verifH_C01_derive() { verifC01Derive(verifCase("digits"), verifCase("alg"), verifCase("keylen")) }
+
+// keys of other lengths (empty, one byte, exactly / one more than the HMAC block size, two blocks)
+//
+//verif:harness prop=C01 name=derivekeys
+//verif:cases quick digits=6 alg=0,2 keylen=0,1,64,65,129
+//verif:cases thorough digits=6,10 alg=0..2 keylen=0,1,63,64,65,128,129,200
+func verifH_C01_derivekeys() {
+	verifC01Derive(verifCase("digits"), verifCase("alg"), verifCase("keylen"))
+}
+
+func verifC01Derive(digits, alg, keylen int) {
 	verifUseModelDigests()
-	digits := verifCase("digits")
-	alg := verifCase("alg")
 	counter := verifU64("counter")
-	key := verifBytes("key", verifCase("keylen"))
+	key := verifBytes("key", keylen)
 	keyCopy := append([]byte{}, key...)
 	verifProtect(key)
 	verifBeginOp()
@@ -64,7 +73,7 @@ func verifH_C01_derive() {
 		}
 		verifAssert(ok, "message-big-endian-counter")
 	}
-	verifAssert(verifBytesEq(verifHMACKey(0), keyCopy), "key-is-secret")
+	verifAssert(verifKeyEquiv(verifHMACKey(0), keyCopy, alg), "key-is-secret")
 	verifAssert(verifBytesEq(key, keyCopy), "secret-unmodified")
 	verifAssert(verifFrameViolations() == 0, "writes-only-own-memory")
 	D := verifHMACDigest(0)
